@@ -47,7 +47,7 @@ SimpleTypeNames == <<"INT64", "BOOL", "FLOAT32", "FLOAT64", "DATE", "TIMESTAMP",
 SimpleType(n) == Tmpl("SimpleType", <<KW(n), SET("Name", n)>>)
 TypeTmpls ==
   [j \in 1..Len(SimpleTypeNames) |-> SimpleType(SimpleTypeNames[j])] \o
-  << Tmpl("SimpleType", <<TOK("id", "`Date`"), SET("Name", "DATE")>>) >> \o      \* type names are matched on the decoded name
+  << Tmpl("SimpleType", <<TOK("tn", "`Date`"), SET("Name", "DATE")>>) >> \o      \* type names are matched on the decoded name
   << Tmpl("ArrayType", <<T("ARRAY"), T("<"), N("Item", "Type"), T(">")>>),
      Tmpl("StructType", <<T("STRUCT"), T("<"), L("Fields", "StructField", ",", 0), T(">")>>),
      Tmpl("NamedType", <<L("Path", "TypeNameId", ".", 1)>>) >>
